@@ -65,6 +65,7 @@ NameUtf8(n) ==
     [] n = "x" -> <<120>> [] n = "f" -> <<102>> [] n = "g" -> <<103>> [] n = "m" -> <<109>>
     [] n = "next" -> <<110, 101, 120, 116>> [] n = "kids" -> <<107, 105, 100, 115>>
     [] n = "S0" -> <<83, 48>> [] n = "S1" -> <<83, 49>> [] n = "S2" -> <<83, 50>> [] n = "S3" -> <<83, 51>>
+    [] n = "L" -> <<76>> [] n = "M" -> <<77>>
     [] n = "f0" -> <<102, 48>> [] n = "f1" -> <<102, 49>> [] n = "f2" -> <<102, 50>>
     [] OTHER -> <<0>>
 
@@ -178,8 +179,14 @@ AtRoot(v, s0, env) ==
          \cup {P("DropField", [v EXCEPT !.fields = SubSeq(v.fields, 1, i - 1) \o SubSeq(v.fields, i + 1, Len(v.fields))])
                  : i \in 1..Len(v.fields)}
          \cup {P("RenameField", [v EXCEPT !.fields[i] = <<"zzz", v.fields[i][2]>>]) : i \in 1..Len(v.fields)}
-    [] s.k = "array" -> {P("MapForArray", [t |-> "map", entries |-> <<>>])}
-    [] s.k = "map" -> {P("ArrayForMap", [t |-> "array", items |-> <<>>])}
+    [] s.k = "array" ->
+         {P("MapForArray", [t |-> "map", entries |-> <<>>])}
+         \cup (IF Len(v.items) > 0 /\ \A i \in 1..Len(v.items) : v.items[i].t = "union"
+               THEN {P("UnwrapAllItems", [v EXCEPT !.items = [i \in 1..Len(v.items) |-> v.items[i].v]])} ELSE {})
+    [] s.k = "map" ->
+         {P("ArrayForMap", [t |-> "array", items |-> <<>>])}
+         \cup (IF Len(v.entries) > 0 /\ \A i \in 1..Len(v.entries) : v.entries[i][2].t = "union"
+               THEN {P("UnwrapAllValues", [v EXCEPT !.entries = [i \in 1..Len(v.entries) |-> <<v.entries[i][1], v.entries[i][2].v>>]])} ELSE {})
     [] s.k = "boolean" -> {P("IntForBoolean", [t |-> "int", n |-> NatToLE8(1)])}
     [] s.k = "null" -> {P("BooleanForNull", [t |-> "boolean", bool |-> FALSE])}
     [] OTHER -> {}
